@@ -35,16 +35,18 @@ pub fn bpm(last_hit_object: Option<&HitObject>, timing_points: &[TimingPoint]) -
         .map
         .into_iter()
         // * Get the most common one, or 0 as a suitable default
-        .max_by(|(_, a), (_, b)| a.total_cmp(b))
+        // If multiple are equally common, take the one that appeared first so
+        // that the result does not depend on the map's iteration order.
+        .max_by(|(_, (a_idx, a)), (_, (b_idx, b))| a.total_cmp(b).then_with(|| b_idx.cmp(a_idx)))
         .map_or(0.0, |(beat_len, _)| f64::from_bits(beat_len));
 
     60_000.0 / most_common_beat_len
 }
 
-/// Maps `beat_len` to a cumulative duration
+/// Maps `beat_len` to its order of appearance and a cumulative duration
 struct BeatLenDuration {
     last_time: f64,
-    map: HashMap<u64, f64>,
+    map: HashMap<u64, (usize, f64)>,
 }
 
 impl BeatLenDuration {
@@ -57,7 +59,8 @@ impl BeatLenDuration {
 
     fn add(&mut self, beat_len: f64, curr_time: f64, next_time: f64) {
         let beat_len = (1000.0 * beat_len).round() / 1000.0;
-        let entry = self.map.entry(beat_len.to_bits()).or_default();
+        let idx = self.map.len();
+        let (_, entry) = self.map.entry(beat_len.to_bits()).or_insert((idx, 0.0));
 
         if curr_time <= self.last_time {
             *entry += next_time - curr_time;
